@@ -134,6 +134,7 @@ class Program:
         self.adts = doc["adts"]
         self.impls = doc["impls"]
         self.consts = {k: int(v["v"]) for k, v in doc["consts"].items() if "v" in v}
+        self.const_bodies = {k: v["body"] for k, v in doc["consts"].items() if "body" in v}
         self._impl_ix = {}
         for im in self.impls:
             self._impl_ix.setdefault((im["trait"], _strip_generics(im["self_str"])), []).append(im)
